@@ -216,6 +216,10 @@ func parseCoins(s string) sdk.Coins {
 	if s == "" {
 		return sdk.Coins{}
 	}
+	if strings.HasPrefix(s, "!0") {
+		// a hand-built coin list holding a zero amount (sdk.ParseCoins / NewCoins would refuse or drop it)
+		return sdk.Coins{sdk.Coin{Denom: s[2:], Amount: sdk.ZeroInt()}}
+	}
 	c, err := sdk.ParseCoins(s)
 	if err != nil {
 		return sdk.Coins{}
